@@ -49,7 +49,7 @@ OPERATOR_WORDS = ["AND", "OR", "NOT", "XOR", "IMPLIES", "REQUIRES", "EXCLUDES", 
                   "EQUALS", "LOWER", "GREATER", "ADD", "SUB", "MUL", "DIV", "SUM", "AVG", "LEN",
                   "x AND y", "a OR b", "NOT z", "p XOR q", "n IMPLIES m"]
 ESCAPE_LIKE = ["%2E", "%25", "a%2Eb", "100%", "%%", "\\n", "\\t", "\\u0041", "\\x41", "&amp;", "&#46;", "&lt;b&gt;", "$$", "${x}", "a\\\\b",
-               "\\", "\\'", "''", "`x`", "-x", "-A", "+B", "!B", "~C"]
+               "\\", "\\'", "a''", "`x`", "-x", "-A", "+B", "!B", "~C"]
 ODD_UVL = [e for e in ESCAPE_LIKE if "'" not in e or not e.startswith("'")] + ["a--b", "-1", "+1", "007", "1e3", "0x10", "1_000", "-", "+", "½", "%s", "{0}", "$1", "a // b", "see // the manual", "/* x */", "x /* y", "*/", "http://h/a//b", "1a", "42", "_x", "_", "a#b", "a§b", "a'b", "a;b", "a b", "  ", "a-b", "a+b",
            "a&b", "a|b", "(x)", "[y]", "{z}", "a,b", "a:b", "a=b", "<a>", "a/b", "a\\b", "a*b",
            "äöü", "ñandú", "日本語", "Δx", "\U0001f600", "xé",
@@ -500,6 +500,8 @@ def model_specs(draw, profile: Profile, min_feats=1, max_feats=12, with_ctcs=Tru
                 e = draw(expr_of_depth(names, profile.ctc_ops, draw(st.integers(0, profile.ctc_depth))))
             cname = profile.ctc_names(draw, j) if profile.ctc_names else f"C{j}"
             ctcs.append({"name": cname, "ast": e})
+    for c in ctcs:
+        c["ast"] = cap_clause_cost(c["ast"])
     model = {"root": feats[0], "ctcs": ctcs}
     if ctcs and draw(st.integers(0, 3)) == 0:
         model["share_nodes"] = True       # equal sub-trees of a constraint are one Node object (see build_node_shared)
@@ -975,3 +977,11 @@ def concatenation_twins(draw, m):
         parent = next((f for f in feats if not f["rels"]), parent)      # keep one-group layouts intact: hang it on a leaf
     parent["rels"].append(build.rel(0, 1, [twin]))
     return m
+
+
+def cap_clause_cost(e, limit=400):
+    """Constructive bound (not a filter): while the clause conversion of a logical constraint would exceed `limit`
+    clauses - exponential territory for the library's normal-form code - it is replaced by its first operand."""
+    while e[0] not in logic.LEAF and logic.is_logical(e) and logic.clause_cost(e, limit) is None:
+        e = e[1]
+    return e
